@@ -84,7 +84,7 @@ Route(pfx, src, nh, ap, o, med, lp, cm, ex, lg, rpki, chain) ==
 
 (* ---- names ------------------------------------------------------------------------------- *)
 SetKinds == {"prefix", "neighbor", "aspath", "comm", "ext", "large"}
-SetNames(k) == CASE k = "prefix" -> {"ps1", "ps2"} [] k = "neighbor" -> {"ns1", "ns2"}
+SetNames(k) == CASE k = "prefix" -> {"ps1", "ps2", "ps3"} [] k = "neighbor" -> {"ns1", "ns2"}
                  [] k = "aspath" -> {"as1", "as2"} [] k = "comm" -> {"cs1", "cs2"}
                  [] k = "ext" -> {"es1"} [] k = "large" -> {"ls1"}
 MembersOf(k) == CASE k = "prefix" -> PrefixEntries [] k = "neighbor" -> NbrMembers
